@@ -349,7 +349,11 @@ func exec(s *Scenario, guard bool) (ms []core.Mismatch, onlys []string) {
 			if ccw {
 				o = "ccw"
 			}
-			run("Offset("+sign+")", func() *canvas.Path { return build(s).Offset(d, 0.01*scale) },
+			run("Offset("+sign+")", func() *canvas.Path {
+				fastMu.RLock()
+				defer fastMu.RUnlock()
+				return build(s).Offset(d, 0.01*scale)
+			},
 				func(f int) int { return s.H.OffTable[grow][f] }, "offset"+sign+o, sign)
 		}
 		return
@@ -370,8 +374,34 @@ func exec(s *Scenario, guard bool) (ms []core.Mismatch, onlys []string) {
 			if s.Closed && s.Explicit {
 				cap = "square" // a closed sub-path has no caps, whatever capper is passed
 			}
-			run(name, func() *canvas.Path { return build(s).Stroke(2*hw, cappers[cap], joiners[join], 0.01*scale) },
+			run(name, func() *canvas.Path {
+				fastMu.RLock()
+				defer fastMu.RUnlock()
+				return build(s).Stroke(2*hw, cappers[cap], joiners[join], 0.01*scale)
+			},
 				func(f int) int { return tab[f] }, name, name)
+		}
+	}
+	// canvas.FastStroke = true skips the settling; its documentation promises the same region under the NonZero rule
+	// for the trivial cases ("overlapping strokes may not be a problem when using the NonZero winding order", inner
+	// bends of two line segments are repaired). Demanded for simple closed polylines of either orientation without
+	// short legs at bends, with the same classes as the settled stroke.
+	if s.Closed && !s.Explicit && !s.F["selfint"] && !s.F["zeroarea"] && !s.F["shortbend"] {
+		for ji, join := range s.H.Joins {
+			if join != "bevel" && join != "round" {
+				continue
+			}
+			name := "fast/-/" + join
+			if s.Only != "" && s.Only != name {
+				continue
+			}
+			tab := s.H.Table[0][ji]
+			run(name, func() *canvas.Path {
+				fastMu.Lock()
+				defer func() { canvas.FastStroke = false; fastMu.Unlock() }()
+				canvas.FastStroke = true
+				return build(s).Stroke(2*hw, canvas.ButtCap, joiners[join], 0.01*scale)
+			}, func(f int) int { return tab[f] }, name, name)
 		}
 	}
 	return
